@@ -11,6 +11,15 @@
 //!   rm <k> <stream>                blocking read_message over a reader handing out <= k bytes per read (0: &[u8])
 //!   hm <state> <d> <kind>          Session::handle_msg in every (state, delay-open-running, message kind)
 //!   e2e <state> <d> <stream> <table>  bytes written to a loopback socket, Session::tick until error/EOF
+//!   e2ec <state> <d> <stream> <lens> <table>  like e2e, but the peer writes the stream in the chunks <lens>; after every
+//!                                  chunk but the last the application sends Command::GetAttributes and the session is
+//!                                  ticked until it is idle (so tick() is cancelled / another select! arm fires while a
+//!                                  frame is incomplete); reply: what reached the application, how the run ended, final
+//!                                  state, outs, and same=1 iff the run with the stream written in one piece gives the same
+//!   dec <cfg> <asn> <frame>        one frame through Message::from_octets(frame, Some(cfg)) and the accessors
+//!                                  handle_msg / handle_event call (remote AS allowed = <asn>); the MODEL decides the
+//!                                  verdict from the bytes itself with the concrete decoders (Rc/Model/SessionDecode.lean)
+//! <table> = `*`: the model decides every frame itself with the concrete decoders (modern config, remote AS 65002), or
 //! <table> = `off:len:v,...` decode verdicts (computed by the generator with the real
 //! Message::from_octets, the model treats the per-type decoders as an abstract function given by
 //! this table): e err, p panic, k keepalive, u update, n notification, A open (AS allowed),
@@ -88,7 +97,7 @@ fn parse_lens(s: &str, total: usize) -> Option<Vec<usize>> {
 
 /// table entries: (off, len, verdict)
 fn parse_table(s: &str, total: usize) -> Option<Vec<(usize, usize, char)>> {
-    if s == "-" { return Some(vec![]); }
+    if s == "-" || s == "*" { return Some(vec![]); }
     let mut out = vec![];
     for e in s.split(',') {
         let p: Vec<&str> = e.split(':').collect();
@@ -212,6 +221,48 @@ fn verdict_of(frame: &[u8]) -> char {
         }
     });
     r.unwrap_or('p')
+}
+
+/// `dec`: what the session does with one complete frame before the FSM acts on it
+/// (session.rs: parse_frame -> handle_msg -> the OPEN-accepting arms of handle_event).
+/// A panic propagates to the run loop.
+fn run_dec(cfg: &SessionConfig, allowed: u32, frame: &[u8]) -> String {
+    use routecore::bgp::message::notification::{Details, OpenMessageSubcode};
+    match BgpMsg::from_octets(Bytes::copy_from_slice(frame), Some(cfg)) {
+        Err(_) => "err".into(),
+        Ok(BgpMsg::Keepalive(_)) => "k".into(),
+        Ok(BgpMsg::Update(_)) => "u".into(),
+        Ok(BgpMsg::RouteRefresh(_)) => "r".into(),
+        Ok(BgpMsg::Notification(n)) => {
+            if matches!(n.details(), Details::OpenMessageError(OpenMessageSubcode::UnsupportedVersionNumber)) { "v".into() } else { "n".into() }
+        }
+        Ok(BgpMsg::Open(o)) => {
+            let asn = o.my_asn();
+            if asn != inetnum::asn::Asn::from_u32(allowed) { return format!("B asn={}", asn.into_u32()); }
+            let Ok(ap) = o.addpath_families_vec() else { return format!("C asn={}", asn.into_u32()); };
+            let hold = o.holdtime();
+            let id: [u8; 4] = o.identifier()[0..4].try_into().unwrap();
+            let asn2 = o.my_asn();
+            let four = o.four_octet_capable();
+            let aps: Vec<String> = ap.into_iter().map(|(f, d)| { let (a, s): (u16, u8) = f.into(); format!("{}/{}/{}", a, s, u8::from(d)) }).collect();
+            format!("A asn={} hold={} id={} four={} ap={}", asn2.into_u32(), hold, hex(&id), four as u8, if aps.is_empty() { "-".into() } else { aps.join(",") })
+        }
+    }
+}
+
+/// what RFC 4271 section 4 says about a frame without looking into OPEN / UPDATE bodies:
+/// Some(reply) when the reply is determined by the header (and, for the two fixed-layout
+/// types, the length), None when it depends on the OPEN / UPDATE content
+fn dec_reference(frame: &[u8]) -> Option<&'static str> {
+    if frame.len() < 19 || frame[..16] != [0xffu8; 16] { return Some("err"); }
+    let len = u16::from_be_bytes([frame[16], frame[17]]) as usize;
+    match frame[18] {
+        1 => if len != frame.len() || len < 29 { Some("err") } else { None },
+        2 => if len < 23 || len > frame.len() { Some("err") } else { None },
+        3 => if len != frame.len() || len < 21 { Some("err") } else if frame[19] == 2 && frame[20] == 1 { Some("v") } else { Some("n") },
+        4 => if len == 19 && frame.len() == 19 { Some("k") } else { Some("err") },
+        _ => Some("err"),
+    }
 }
 
 /// reference framing written from RFC 4271 section 4.1: (frames, end)
@@ -358,6 +409,62 @@ fn malformed(rng: &mut Rng) -> Vec<u8> {
     s
 }
 
+/// single frames for the `dec` op
+fn gen_dec(rng: &mut Rng, scale: usize, v: &mut Vec<String>) {
+    use crate::props::{c01, c02, c03, c15};
+    let line = |cfg: &str, asn: u32, f: &[u8]| format!("dec {} {} {}", cfg, asn, hex(f));
+    // what the real decoder says the OPEN's AS is (only to aim the `allowed` argument)
+    let real_asn = |f: &[u8]| -> Option<u32> {
+        std::panic::catch_unwind(|| routecore::bgp::message::OpenMessage::from_octets(f).ok().map(|o| o.my_asn().into_u32())).ok().flatten()
+    };
+    // boundary cases
+    for f in [keepalive(), notification(2, 1, &[0, 4]), notification(2, 1, &[]), notification(2, 2, &[]), notification(1, 1, &[]),
+              notification(0, 1, &[]), notification(4, 1, &[]), with_header(3, &[2]), with_header(3, &[]), with_header(4, &[0]),
+              route_refresh(), with_header(0, &[]), with_header(6, &[]), with_header(255, &[1, 2, 3]), with_header(2, &[0, 0, 0, 0]),
+              with_header(2, &[0, 0, 0]), with_header(2, &[0, 0, 0, 0, 24, 10, 0, 0]), with_header(1, &[4, 0xfd, 0xea, 0, 90, 10, 0, 0, 2, 0]),
+              with_header(1, &[4, 0xfd, 0xea, 0, 90, 10, 0, 0, 2]), badaddpath_open()] {
+        for cfg in ["4", "2", "4,1.1.b"] { v.push(line(cfg, REMOTE_AS, &f)); }
+        for k in 0..f.len() { v.push(line("4", REMOTE_AS, &f[..k])); }
+    }
+    for i in 0..(2400 * scale) {
+        let cfg_any = c02::gen_cfg(rng);
+        let (cfg, mut f): (String, Vec<u8>) = match i % 8 {
+            0 => (cfg_any, keepalive()),
+            1 => { let n = rng.below(6) as usize; (cfg_any, notification(if rng.chance(1, 3) { 2 } else { rng.below(8) as u8 }, rng.below(4) as u8, &rng.bytes(n))) }
+            2 => (cfg_any, if rng.bool() { good_open(rng) } else if rng.bool() { badas_open(rng) } else { badaddpath_open() }),
+            3 | 4 => (cfg_any, c15::gen_open(rng)),
+            5 => (cfg_any, update_msg(rng)),
+            6 => { let (c, content) = c01::gen_case(rng, Some(i / 8 % 15), 200); (c01::cfg_token(&c), c01::ref_encode(&c, &content)) }
+            _ => (cfg_any, if rng.bool() { route_refresh() } else { with_header(*rng.pick(&[0u8, 5, 6, 7, 200]), &rng.bytes(4)) }),
+        };
+        // half of them malformed
+        if i % 16 >= 8 {
+            f = match f.get(18) {
+                Some(1) => c03::mutate(rng, &f),
+                Some(2) => { let other = update_msg(rng); c02::mutate(rng, f, &other) }
+                _ => {
+                    if f.is_empty() { f } else {
+                    match rng.below(6) {
+                        0 => { let i = rng.usize(0, f.len() - 1); f[i] ^= 1 << rng.below(8); f }
+                        1 => { let k = rng.usize(0, f.len()); f.truncate(k); f }
+                        2 => { let n = rng.usize(1, 4); f.extend(rng.bytes(n)); f }
+                        3 => { let l = (f.len() as u16).wrapping_add(*rng.pick(&[1u16, 0xffff, 2])); f[16..18].copy_from_slice(&l.to_be_bytes()); f }
+                        4 => { f[18] = rng.below(7) as u8; f }
+                        _ => { let k = rng.usize(0, f.len()); f.truncate(k); if f.len() >= 18 { let l = f.len() as u16; f[16..18].copy_from_slice(&l.to_be_bytes()); } f }
+                    } }
+                }
+            };
+        }
+        let asn = match rng.below(4) { 0 => REMOTE_AS, 1 => rng.u32(), _ => real_asn(&f).unwrap_or(REMOTE_AS) };
+        v.push(line(&cfg, asn, &f));
+        // the same frame under an unrelated configuration (ASN width, ADD-PATH table)
+        if i % 5 == 0 { v.push(line(&c02::gen_cfg(rng), asn, &f)); }
+    }
+    v.push("dec 4 65002 zz".into());
+    v.push("dec 3 65002 00".into());
+    v.push("dec 4 4294967296 00".into());
+}
+
 /// C09 takes the message decoders (from_octets + the OPEN accessors the FSM calls) as a total
 /// function; a frame on which they panic (defect F9, owned by C03) is outside its generator.
 fn decoders_total(table: &str) -> bool { !table.contains(":p") }
@@ -442,8 +549,8 @@ fn state_no(s: State) -> u16 { s.into() }
 struct Sess {
     s: Session<BasicConfig>,
     pdu_rx: tokio::sync::mpsc::Receiver<BgpMsg<Bytes>>,
-    _app_rx: tokio::sync::mpsc::Receiver<AppMsg>,
-    _cmd_tx: tokio::sync::mpsc::Sender<Command>,
+    app_rx: tokio::sync::mpsc::Receiver<AppMsg>,
+    cmd_tx: tokio::sync::mpsc::Sender<Command>,
     client: tokio::net::TcpStream,
     _w: tokio::net::tcp::OwnedWriteHalf,
 }
@@ -462,7 +569,7 @@ async fn new_session() -> Sess {
     let (cmd_tx, cmd_rx) = tokio::sync::mpsc::channel(4);
     let (pdu_tx, pdu_rx) = tokio::sync::mpsc::channel(64);
     let s = Session::new(cfg, r, app_tx, cmd_rx, pdu_tx);
-    Sess { s, pdu_rx, _app_rx: app_rx, _cmd_tx: cmd_tx, client, _w: w }
+    Sess { s, pdu_rx, app_rx, cmd_tx, client, _w: w }
 }
 
 fn drain_outs(rx: &mut tokio::sync::mpsc::Receiver<BgpMsg<Bytes>>) -> String {
@@ -527,6 +634,78 @@ fn run_e2e(env: &mut Env, st: u16, d: bool, stream: &[u8]) -> String {
     match r { Ok(s) => s, Err(e) => { dbg_payload(&e); "panic".into() } }
 }
 
+/// what reached the application channel, in order
+fn drain_app(rx: &mut tokio::sync::mpsc::Receiver<AppMsg>) -> String {
+    let mut v = vec![];
+    while let Ok(m) = rx.try_recv() {
+        v.push(match m {
+            AppMsg::UpdateMessage(u) => { let r = u.as_ref(); format!("U:{}:{}", r.len(), hash_bytes(r)) }
+            AppMsg::NotificationMessage(n) => { let r = n.as_ref(); format!("N:{}.{}", r[19], r[20]) }
+            AppMsg::Attributes(_) => "A".to_string(),
+            AppMsg::SessionNegotiated(_) => "S".to_string(),
+            AppMsg::ConnectionLost(_) => "L".to_string(),
+        });
+    }
+    if v.is_empty() { "-".into() } else { v.join(",") }
+}
+
+/// the peer writes `stream` in the chunks `lens`; between chunks the application sends a command and the
+/// session is ticked until nothing more happens (the timeout cancels the pending tick, i.e. read_frame)
+async fn e2ec_once(st: u16, d: bool, stream: &[u8], lens: &[usize]) -> String {
+    use tokio::io::AsyncWriteExt;
+    let mut se = new_session().await;
+    se.s.verif_set_state(state_of(st));
+    if d { se.s.verif_start_delay_open_timer(); }
+    let mut ended: Option<&str> = None;
+    let mut off = 0;
+    let mut keep = vec![];
+    for (i, n) in lens.iter().enumerate() {
+        if ended.is_some() || !se.s.verif_snapshot().has_connection { break; }
+        se.client.write_all(&stream[off..off + n]).await.unwrap();
+        off += n;
+        if i + 1 == lens.len() { break; }
+        // another select! arm becomes ready while (possibly) a frame is incomplete
+        let (tx, rx) = tokio::sync::oneshot::channel();
+        let _ = se.cmd_tx.send(Command::GetAttributes { resp: tx }).await;
+        keep.push(rx);
+        for _ in 0..64 {
+            match tokio::time::timeout(std::time::Duration::from_millis(12), se.s.tick()).await {
+                Err(_) => break,                       // idle: the pending tick (and its read_frame) is dropped
+                Ok(Ok(())) => {}
+                Ok(Err(_)) => { ended = Some("err"); break; }
+            }
+            if !se.s.verif_snapshot().has_connection { break; }
+        }
+    }
+    if ended.is_none() && se.s.verif_snapshot().has_connection {
+        // whatever was not written because the session ended early is never written; otherwise close
+        if off < stream.len() { let _ = se.client.write_all(&stream[off..]).await; }
+        se.client.shutdown().await.unwrap();
+        for _ in 0..48 {
+            match tokio::time::timeout(std::time::Duration::from_secs(3), se.s.tick()).await {
+                Err(_) => { ended = Some("hang"); break; }
+                Ok(Ok(())) => {}
+                Ok(Err(_)) => { ended = Some("err"); break; }
+            }
+            if !se.s.verif_snapshot().has_connection { break; }
+        }
+    }
+    let snap = se.s.verif_snapshot();
+    format!("app={} end={} st={} conn={} outs={}", drain_app(&mut se.app_rx), ended.unwrap_or("ok"),
+        state_no(se.s.state()), snap.has_connection as u8, drain_outs(&mut se.pdu_rx))
+}
+
+fn run_e2ec(env: &mut Env, st: u16, d: bool, stream: &[u8], lens: &[usize]) -> String {
+    let r = std::panic::catch_unwind(std::panic::AssertUnwindSafe(|| {
+        env.rt.block_on(async {
+            let chunked = e2ec_once(st, d, stream, lens).await;
+            let whole = e2ec_once(st, d, stream, &[stream.len()]).await;
+            format!("{} same={}", chunked, (chunked == whole) as u8)
+        })
+    }));
+    match r { Ok(s) => s, Err(e) => { dbg_payload(&e); "panic".into() } }
+}
+
 // ---------------------------------------------------------------------------
 impl Prop for C09 {
     fn gen(&self, rng: &mut Rng, tier: Tier) -> Vec<String> {
@@ -579,6 +758,9 @@ impl Prop for C09 {
             v.push(format!("bytewise {} {}", h, t));
             if s.len() <= 64 { v.push(format!("split3 {} {}", h, t)); }
             for _ in 0..2 { v.push(format!("feed {} {} {}", h, lens_str(&random_lens(rng, s.len())), t)); }
+            // the same stream, every frame decided by the model's concrete decoders
+            v.push(format!("feed {} {} *", h, lens_str(&random_lens(rng, s.len()))));
+            if i % 4 == 0 && s.len() <= 200 { v.push(format!("split2 {} *", h)); }
         }
         // (4b) frames near the 4096-byte maximum inside a sequence
         for i in 0..(12 * scale) {
@@ -601,8 +783,9 @@ impl Prop for C09 {
         for i in 0..(1000 * scale) {
             let s = if i % 10 == 0 { let n = rng.usize(0, 80); rng.bytes(n) } else { malformed(rng) };
             let t = table_for(&s);
-            if !decoders_total(&t) { continue; }
             let h = hex(&s);
+            v.push(format!("feed {} {} *", h, lens_str(&random_lens(rng, s.len()))));
+            if !decoders_total(&t) { continue; }
             v.push(format!("split2 {} {}", h, t));
             v.push(format!("bytewise {} {}", h, t));
             v.push(format!("feed {} {} {}", h, lens_str(&random_lens(rng, s.len())), t));
@@ -623,10 +806,38 @@ impl Prop for C09 {
                 for _ in 0..rng.usize(1, 4) { s.extend(any_msg(rng)); }
                 s
             };
+            if i % 2 == 1 { v.push(format!("e2e {} {} {} *", st, d, hex(&s))); continue; }
             let t = table_for(&s);
             if !decoders_total(&t) { continue; }
             v.push(format!("e2e {} {} {} {}", st, d, hex(&s), t));
         }
+        // (7b) the same through chunked writes with a command in between (select! fairness / cancellation of read_frame):
+        //      at least one split falls inside a frame, after its 18th octet
+        for i in 0..(120 * scale) {
+            let st = if i % 3 == 0 { 6 } else { 1 + rng.below(6) as u16 };
+            let d = rng.chance(1, 6) as u8;
+            let mut frames: Vec<Vec<u8>> = vec![];
+            if st == 4 && rng.bool() { frames.push(good_open(rng)); }
+            for _ in 0..rng.usize(1, 4) { frames.push(if i % 7 == 6 { malformed(rng) } else { any_msg(rng) }); }
+            let s: Vec<u8> = frames.concat();
+            if s.len() < 20 { continue; }
+            // a cut inside frame j, after its 18th octet (if the frame is longer than 19)
+            let j = rng.usize(0, frames.len() - 1);
+            let o: usize = frames[..j].iter().map(|f| f.len()).sum();
+            let l = frames[j].len();
+            let mut cuts = vec![if l > 19 { o + rng.usize(18, l - 1) } else { o + l.min(18) }];
+            if rng.bool() { cuts.push(rng.usize(1, s.len() - 1)); }
+            cuts.retain(|c| *c > 0 && *c < s.len());
+            cuts.sort(); cuts.dedup();
+            if cuts.is_empty() { continue; }
+            let mut lens = vec![]; let mut prev = 0;
+            for c in &cuts { lens.push(c - prev); prev = *c; }
+            lens.push(s.len() - prev);
+            v.push(format!("e2ec {} {} {} {} *", st, d, hex(&s), lens_str(&lens)));
+        }
+        // (8) single frames of all five types, valid and malformed, under varying session configurations:
+        //     the model decides the verdict (and the values read off an OPEN) from the bytes alone
+        gen_dec(rng, scale, &mut v);
         v
     }
 
@@ -634,6 +845,14 @@ impl Prop for C09 {
         let w: Vec<&str> = line.split(' ').collect();
         let get = |s: &str| unhex(s);
         match w.as_slice() {
+            ["dec", c, a, h] => {
+                let Some(cfg) = crate::props::c02::parse_cfg(c) else { return "bad-op".into() };
+                if a.is_empty() || a.len() > 10 || !a.bytes().all(|b| b.is_ascii_digit()) { return "bad-op".into(); }
+                let Ok(asn) = a.parse::<u64>() else { return "bad-op".into() };
+                if asn > u32::MAX as u64 { return "bad-op".into(); }
+                let Some(f) = get(h) else { return "bad-op".into() };
+                run_dec(&crate::props::c02::make_cfg(&cfg), asn as u32, &f)
+            }
             ["feed", s, lens, t] => {
                 let (Some(s), true) = (get(s), true) else { return "bad-op".into() };
                 let Some(lens) = parse_lens(lens, s.len()) else { return "bad-op".into() };
@@ -667,6 +886,13 @@ impl Prop for C09 {
                 if !(1..=7).contains(&st) || d > 1 || !KINDS.contains(kind) { return "bad-op".into(); }
                 with_env(|e| run_hm(e, st, d == 1, kind))
             }
+            ["e2ec", st, d, s, lens, t] => {
+                let (Ok(st), Ok(d)) = (st.parse::<u16>(), d.parse::<u8>()) else { return "bad-op".into() };
+                let Some(s) = get(s) else { return "bad-op".into() };
+                let Some(lens) = parse_lens(lens, s.len()) else { return "bad-op".into() };
+                if !(1..=7).contains(&st) || d > 1 || lens.is_empty() || parse_table(t, s.len()).is_none() { return "bad-op".into(); }
+                with_env(|e| run_e2ec(e, st, d == 1, &s, &lens))
+            }
             ["e2e", st, d, s, t] => {
                 let (Ok(st), Ok(d)) = (st.parse::<u16>(), d.parse::<u8>()) else { return "bad-op".into() };
                 let Some(s) = get(s) else { return "bad-op".into() };
@@ -684,6 +910,19 @@ impl Prop for C09 {
         let w: Vec<&str> = line.split(' ').collect();
         let r: Vec<&str> = reply.split(' ').collect();
         match w.as_slice() {
+            ["dec", _, a, h] => {
+                let f = unhex(h).ok_or("hex")?;
+                if let Some(want) = dec_reference(&f) {
+                    if reply != want { return Err(format!("RFC 4271 section 4: this frame must decode to `{}`, the implementation says `{}`", want, trunc80(reply))); }
+                }
+                if reply == "r" { return Err("a ROUTE-REFRESH reached the FSM (Message::from_octets must refuse it)".into()); }
+                // an OPEN is classified by the AS it announces
+                if let Some(x) = r.get(1).and_then(|x| x.strip_prefix("asn=")) {
+                    let same = x == *a;
+                    if (r[0] == "B") == same { return Err(format!("OPEN from AS {} with AS {} admissible classified `{}`", x, a, r[0])); }
+                }
+                Ok(())
+            }
             ["feed", s, ..] | ["bytewise", s, ..] | ["split2", s, ..] | ["split3", s, ..] | ["parts", s, ..] => {
                 let s = unhex(s).ok_or("hex")?;
                 let (fr, end) = reference(&s);
@@ -716,6 +955,25 @@ impl Prop for C09 {
                 Ok(())
             }
             ["hm", ..] => Ok(()),
+            ["e2ec", _, _, s, ..] => {
+                if reply.contains("hang") { return Err("session task hangs on the peer's bytes".into()); }
+                if !reply.ends_with(" same=1") {
+                    return Err("what the session does with the stream depends on how the peer's writes were split and on a command arriving in between".into());
+                }
+                // what reached the application are messages that are on the wire, in wire order
+                let s = unhex(s).ok_or("hex")?;
+                let (fr, _) = reference(&s);
+                let want: Vec<String> = fr.iter().filter_map(|f| match f[18] {
+                    2 => Some(format!("U:{}:{}", f.len(), hash_bytes(f))),
+                    3 => Some(format!("N:{}.{}", f[19], f[20])),
+                    _ => None }).collect();
+                let app = r.iter().find_map(|x| x.strip_prefix("app=")).unwrap_or("-");
+                let mut it = want.iter();
+                for a in app.split(',').filter(|a| a.starts_with("U:") || a.starts_with("N:")) {
+                    if !it.any(|w| w == a) { return Err(format!("the application received `{}`, which is not the next such message on the wire", trunc80(a))); }
+                }
+                Ok(())
+            }
             ["e2e", ..] => { if reply.contains("hang") { Err("session task hangs on the peer's bytes".into()) } else { Ok(()) } }
             _ => Ok(()),
         }
@@ -725,7 +983,8 @@ impl Prop for C09 {
         if reply == "bad-op" { return false; }
         let op = line.split(' ').next().unwrap_or("");
         match op {
-            "hm" | "e2e" => true,
+            "hm" | "e2e" | "e2ec" => true,
+            "dec" => reply != "err" || line.split(' ').nth(3).map(|h| h.len() >= 38 && h.starts_with("ffffffffffffffffffffffffffffffff")).unwrap_or(false),
             "rm" => reply.starts_with("some") || reply.starts_with("err"),
             _ => !reply.starts_with("- rest:"),
         }
@@ -735,6 +994,12 @@ impl Prop for C09 {
         let op = line.split(' ').next().unwrap_or("");
         let r: Vec<&str> = reply.split(' ').collect();
         match op {
+            "dec" => {
+                let ty = line.split(' ').nth(3).and_then(|h| h.get(36..38)).unwrap_or("--");
+                format!("dec:type{}-{}", if matches!(ty, "01" | "02" | "03" | "04" | "05") { ty } else { "xx" }, r[0])
+            }
+            "e2ec" => format!("e2ec:{}-app-{}", r.get(1).and_then(|x| x.strip_prefix("end=")).unwrap_or("?"),
+                if r.first().map(|x| *x == "app=-").unwrap_or(true) { "nothing" } else { "messages" }),
             "hm" => format!("hm:{}", r[0]),
             "e2e" => format!("e2e:{}", if reply.contains("err:") { "ends-in-error" } else if reply == "panic" { "panic" } else { "eof" }),
             "rm" => format!("rm:{}", if reply == "panic" { "panic".into() } else { format!("{}reads-{}", r.len().min(9), r.last().unwrap().split(':').next().unwrap()) }),
